@@ -46,6 +46,8 @@ package router
 // package-level error values are initialised once with errors.New and never reassigned
 //@ constglobal errors.ErrKeyOutOfRange
 //@ axiom errKeyOutOfRange: errors.ErrKeyOutOfRange != nil
+//@ constglobal errors.ErrDateRangeIllegal
+//@ axiom errDateRangeIllegal: errors.ErrDateRangeIllegal != nil
 
 // ---------------------------------------------------------------- C01 interface contracts (router.Rule, router.Shard)
 // Abstract placement: place(s,k) is the table index shard s stores key k in (= FindForKey), klt the strict order
@@ -392,3 +394,48 @@ package router
 //@   params recv, index
 //@   pure-call
 //@   ensures ret0 == dbNameOf(recv, index)
+
+// ---------------------------------------------------------------- C09 calendar period lists of a date_range entry
+// strings.SplitN(s, "-", 2): one or two parts (trusted); splitN / splitA / splitB name the number of parts and the two parts
+//@ pure splitN(s string) int
+//@ pure splitA(s string) string
+//@ pure splitB(s string) string
+//@ trusted strings.SplitN
+//@   params s, sep, n
+//@   pure-call
+//@   ensures ret0 != nil && fresh(ret0) && 1 <= len(ret0) && (n > 0 ==> len(ret0) <= n) && (n == 2 ==> len(ret0) == splitN(s))
+//@   ensures len(ret0) == 1 ==> ret0[0] == s
+//@   ensures len(ret0) == 2 ==> ret0[0] == splitA(s) && ret0[1] == splitB(s)
+// strconv.Atoi of at most four characters is a number of at most four digits (trusted)
+//@ axiom atoiShort for ParseYearRange, ParseMonthRange: forall(s string, atoiOK(s) && slen(s) <= 4 ==> -999 <= atoiVal(s) && atoiVal(s) <= 9999)
+// the earlier / later of the two ends in the order the code uses (byte-wise string order)
+//@ pure spanLo(s string) string = ite(splitB(s) < splitA(s), splitB(s), splitA(s))
+//@ pure spanHi(s string) string = ite(splitB(s) < splitA(s), splitA(s), splitB(s))
+//@ property C09: ParseYearRange
+// a single year, or every year from the earlier to the later end of the span, in order, each once
+//@ func ParseYearRange
+//@   assigns \nothing
+//@   loop 0(i) invariant (dateYear == nil || fresh(dateYear)) && beginYear <= i && (i <= endYear + 1 || i == beginYear) && len(dateYear) == i - beginYear && -999 <= beginYear && endYear <= 9999
+//@   loop 0(i) invariant forall(k, 0, len(dateYear), dateYear[k] == beginYear + k)
+//@   ensures case single: ret1 == nil && splitN(dateRange) == 1 ==> slen(dateRange) == 4 && atoiOK(dateRange) && len(ret0) == 1 && ret0[0] == atoiVal(dateRange)
+//@   ensures case span:   ret1 == nil && splitN(dateRange) == 2 ==> slen(splitA(dateRange)) == 4 && slen(splitB(dateRange)) == 4 && atoiOK(spanLo(dateRange)) && atoiOK(spanHi(dateRange))
+//@        && (atoiVal(spanLo(dateRange)) <= atoiVal(spanHi(dateRange)) ==> len(ret0) == atoiVal(spanHi(dateRange)) - atoiVal(spanLo(dateRange)) + 1)
+//@        && forall(k, 0, len(ret0), ret0[k] == atoiVal(spanLo(dateRange)) + k)
+// a single month, or every month from the earlier to the later end of the span, in order, each once, rolling over year ends:
+// month number m (0-based, counted from year 0) is written as (m / 12) * 100 + m % 12 + 1
+//@ pure ymOf(m int) int = (m / 12) * 100 + mod(m, 12) + 1
+//@ pure loY(s string) int = atoiVal(substr(spanLo(s), 0, 4))
+//@ pure loM(s string) int = atoiVal(substr(spanLo(s), 4, 6))
+//@ pure hiY(s string) int = atoiVal(substr(spanHi(s), 0, 4))
+//@ pure hiM(s string) int = atoiVal(substr(spanHi(s), 4, 6))
+//@ property C09: ParseMonthRange
+//@ func ParseMonthRange
+//@   assigns \nothing
+//@   loop 0(i) invariant (dateMonth == nil || fresh(dateMonth)) && 0 <= i && len(dateMonth) == i && monthCount == (hiY(dateRange) - loY(dateRange)) * 12 + hiM(dateRange) - loM(dateRange) + 1
+//@   loop 0(i) invariant case bounds: (i <= monthCount || i == 0) && monthCount <= 1<<18 && -999 <= beginYear && beginYear <= 9999 + i && -999 <= monthTmp && monthTmp <= 10000
+//@   loop 0(i) invariant case clock: (1 <= loM(dateRange) && loM(dateRange) <= 12 && 0 <= loY(dateRange)) ==> 1 <= monthTmp && monthTmp <= 13 && 0 <= beginYear && beginYear * 12 + monthTmp - 1 == loY(dateRange) * 12 + loM(dateRange) - 1 + i
+//@   loop 0(i) invariant case listed: (1 <= loM(dateRange) && loM(dateRange) <= 12 && 0 <= loY(dateRange)) ==> forall(k, 0, len(dateMonth), dateMonth[k] == ymOf(loY(dateRange) * 12 + loM(dateRange) - 1 + k))
+//@   ensures case single: ret1 == nil && splitN(dateRange) == 1 ==> slen(dateRange) == 6 && atoiOK(dateRange) && len(ret0) == 1 && ret0[0] == atoiVal(dateRange)
+//@   ensures case count:  ret1 == nil && splitN(dateRange) == 2 ==> slen(splitA(dateRange)) == 6 && slen(splitB(dateRange)) == 6
+//@        && ((hiY(dateRange) - loY(dateRange)) * 12 + hiM(dateRange) - loM(dateRange) + 1 >= 0 ==> len(ret0) == (hiY(dateRange) - loY(dateRange)) * 12 + hiM(dateRange) - loM(dateRange) + 1)
+//@   ensures case listed: ret1 == nil && splitN(dateRange) == 2 && 1 <= loM(dateRange) && loM(dateRange) <= 12 && 0 <= loY(dateRange) ==> forall(k, 0, len(ret0), ret0[k] == ymOf(loY(dateRange) * 12 + loM(dateRange) - 1 + k))
